@@ -85,7 +85,7 @@ TResp == /\ Ev("ht.resp") /\ UNCHANGED <<rq, bq, bp>>
                         \cup F(~E.ok \/ kind # "backend" \/ E.resp_id \notin DOMAIN bp \/
                                ResponsePreserved(Pairs(b.headers), Pairs(E.headers), ToSet(b.conn_names), ToSet(u.resp_set)), "an end-to-end response header was dropped, changed or injected")
                         \cup F(~E.ok \/ kind # "backend" \/ \A n \in ToSet(u.resp_set) : Len(Values(Pairs(E.headers), n)) = 1, "a configured response header was not set")
-                        \cup F(u.fate = "answer" \/ E.ms <= 4500, "error answer not within bounded time")
+                        \cup F(u.fate = "answer" \/ E.ms <= 12000, "error answer not within bounded time")
                         \cup F(u.fate # "answer" \/ E.ms <= 30000, "answer not within bounded time"))
 TTunnel == /\ Ev("ht.tunnel") /\ KeepMachine /\ UNCHANGED <<rq, bq, bp, outc, cur>>
            /\ Judge(F(E.status = (IF E.kind = "upgrade" THEN 101 ELSE 200) /\ E.resp_id = E.id, "protocol upgrade / CONNECT was not passed to the backend")
